@@ -561,11 +561,11 @@ class KernelRIM(LinearModel):
 
     def fit(self, X, y=None):
         # We start by storing the input data for later kernel computations
-        check_array(X)
+        X = check_array(X)
         self.input_data_ = X
 
-        training_kernel = self._compute_kernel(X)
-        super().fit(training_kernel, y)
+        self.training_kernel_ = self._compute_kernel(X)
+        super().fit(self.training_kernel_, y)
 
         self.n_features_in_ = X.shape[1]
 
@@ -574,7 +574,8 @@ class KernelRIM(LinearModel):
     def _compute_grads(self, X, y_pred, gradient):
         base_grads = super()._compute_grads(X, y_pred, gradient)
         # Add the regularisation gradient on the weight matrix
-        base_grads[0] += 2 * self.reg * np.dot(X, self.W_)
+        # The penalty reg * tr(W^T K W) involves the whole training kernel, whatever the batch
+        base_grads[0] += 2 * self.reg * np.dot(self.training_kernel_, self.W_)
         return base_grads
 
 
